@@ -65,7 +65,8 @@ static volatile int inside[MAXM];
 static volatile int insec[MAXM];
 static int n_overlap, n_miss, n_cross, n_double, n_rootkill, n_stale, n_running, n_maxpar;
 static int nthreads, nmutex;
-static var thr[MAXT];
+static var* thr;             /* the Thread objects: an array in the main thread's frame (a root of its collector) */
+static int managed_threads;  /* case flag g: Thread objects are new(Thread, ..), i.e. owned by the main thread's collector */
 static var targ[MAXT];
 static int cur_phase;
 static volatile int go_flag;
@@ -217,6 +218,26 @@ static uint64_t work(struct TCtx* c, long kind, long n) {
       }
       break;
     }
+    case 6: {   /* thread-local-storage-heavy: the thread's TLS table grows, rehashes and shrinks */
+      char key[32];
+      for (long r = 0; r < n; r++) {
+        for (int i = 0; i < 40; i++) { snprintf(key, sizeof key, "h%d", i); set(current(Thread), $S(key), targ[i % MAXT]); }
+        for (int i = 0; i < 40; i++) { snprintf(key, sizeof key, "h%d", i); h = mix(h, (uint64_t)c_int(get(current(Thread), $S(key)))); }
+        for (int i = 0; i < 40; i++) { snprintf(key, sizeof key, "h%d", i); rem(current(Thread), $S(key)); }
+        if ((r & 3) == 0) maybe_yield(c);
+      }
+      break;
+    }
+    case 7: {   /* collection-heavy: n forced collections of the current thread's collector */
+      for (long r = 0; r < n; r++) {
+        var s = new(String, $S("junk"));
+        h = mix(h, len(s));
+        s = NULL;
+        struct GC* gc = current(GC);
+        GC_Mark(gc); GC_Sweep(gc);
+      }
+      break;
+    }
     default: {  /* Tree Int -> Int */
       var t = new(Tree, Int, Int);
       for (long i = 0; i < n; i++) { set(t, $I(i * 37 % 64), $I(i)); if ((i & 7) == 0) maybe_yield(c); }
@@ -365,7 +386,7 @@ static void do_spawn(struct TCtx* c, long u) {
   struct TCtx* o = &ctx[c->phase][u];
   if (u <= 0 || u >= nthreads || o->spawned) return;
   o->spawned = 1;
-  thr[u] = new_raw(Thread, worker_function_object);
+  thr[u] = managed_threads ? new(Thread, worker_function_object) : new_raw(Thread, worker_function_object);
   call(thr[u], targ[u]);
   if (++done_spawns >= total_spawns) go_flag = 1;
 }
@@ -397,6 +418,10 @@ static void one_case(char* line) {
   char* f_sched = next_tok(&s, '|');
   if (!f_nm || !f_sched) { P("BADCASE"); return; }
   nmutex = atoi(f_nm); if (nmutex > MAXM) nmutex = MAXM;
+  managed_threads = strchr(f_nm, 'g') != NULL;
+  var thr_frame[MAXT];
+  memset(thr_frame, 0, sizeof thr_frame);
+  thr = thr_frame;
   uint64_t seed = 1469598103934665603ULL;
   for (char* p = f_sched; *p; p++) seed = mix(seed, (uint64_t)*p);
   struct Node* progs[MAXT];
